@@ -251,3 +251,99 @@ PROPS["C13"] = {
         "quick: depth 4 from empty, 3 from the other starts, TINYQ(5); thorough: depth 5 / 4, TINYQ(7), both profiles."),
     "vacuity": lambda results: None if _merge_counters(results)[0].get("states", 0) > 1000 else "fewer than 1000 states",
 }
+
+
+def c09_post(pid, tier, results):
+    """feature axis: the per-case digests of all answers must be identical in the builds with and
+    without the crate's `prefetch` feature (same profile)."""
+    import subprocess, os
+    viol, notes = [], []
+    by = {}
+    for r in results:
+        if r.get("digests") is not None:
+            by[(r["_step"]["cfg"]["profile"], r["_step"]["cfg"]["prefetch"])] = r
+    for prof in ("chk", "fast"):
+        a, b = by.get((prof, True)), by.get((prof, False))
+        if not a or not b:
+            continue
+        da, db = dict(map(tuple, a["digests"])), dict(map(tuple, b["digests"]))
+        if set(da) != set(db):
+            notes.append(f"C09: the two feature builds ran different case sets ({len(da)} vs {len(db)})")
+            continue
+        a["counters"]["feature_digests_compared"] = a["counters"].get("feature_digests_compared", 0) + len(da)
+        for idx in sorted(da):
+            if da[idx] != db[idx]:
+                viol.append({"property": pid, "ty": "quad wavelet tree", "method": "all queries", "class": "feature-prefetch",
+                             "query": f"case {idx}: digest of every answer", "expected": "identical with and without the prefetch feature",
+                             "observed": f"digests differ ({da[idx]} vs {db[idx]})", "case_index": idx, "case": {"index": idx},
+                             "profile": prof, "no_replay": True})
+                if len(viol) >= 3:
+                    break
+    return viol, notes
+
+
+PROPS["C09"] = {
+    "bin": "mc_diff",
+    "quick": [step("mc_diff", CHK, args=["--digest"]), step("mc_diff", CHK_NOPF, args=["--digest"]), step("mc_diff", FAST)],
+    "thorough": [step("mc_diff", CHK, args=["--digest"]), step("mc_diff", CHK_NOPF, args=["--digest"]),
+                 step("mc_diff", FAST, args=["--digest"]), step("mc_diff", FAST_NOPF, args=["--digest"])],
+    "post": c09_post,
+    "evidence": exploration_evidence(
+        "differential, bounded-exhaustive: for every tree of the family (all eight quad types; 3+ levels; lengths of 1..10 "
+        "prefetch sampling periods of 2048 incl. exact multiples; periodic / runs / constant / two-runs / blocks / rare-symbol "
+        "shapes; Huffman profiles whose levels end just below, at and above a multiple of 2048; deep and bushy codes) and EVERY "
+        "position 0..=n+2 (and usize::MAX) x 12..30 symbols (occurring, absent, out of range): rank_prefetch(c,i) must equal "
+        "rank(c,i) and rank_prefetch_unchecked the same on valid arguments, without panic or fault (child-process monitor); "
+        "plus a digest of every answer of the complete query sweep per case, compared between the builds with and without the "
+        "crate feature `prefetch`. Non-trivial = non-empty sequence.",
+        TRUST + ["rank itself is checked against the reference by C01/C02"],
+        "quick: lengths <= 20481, builds chk+prefetch / chk without prefetch / fast+prefetch; thorough: lengths <= 65537 and all four builds."),
+    "vacuity": need(["cases_with_3+_levels", "cases_with_2+_prefetch_samples", "feature_digests_compared"]),
+}
+
+PROPS["C10"] = {
+    "bin": "mc_diff",
+    "quick": [step("mc_diff", CHK), step("mc_diff", FAST)],
+    "thorough": [step("mc_diff", CHK), step("mc_diff", FAST)],
+    "evidence": exploration_evidence(
+        "differential, bounded-exhaustive, in BOTH build profiles: for every structure (10 tree aliases x 6 element types, "
+        "RSQVector256/512, QVector, RSNarrow, RSWide, DArray<false/true>, BitVector, BitVectorMut) over the shared input zoo "
+        "(all short sequences / bit vectors + boundary shapes) and every argument that satisfies the documented precondition "
+        "(validity decided by the reference model), each unchecked method - get_unchecked, rank_unchecked, select_unchecked, "
+        "rank1/rank0_unchecked, select1/select0_unchecked, occs_unchecked, occs_smaller_unchecked, rank_prefetch_unchecked, "
+        "get_bits_unchecked - must return exactly what its checked twin returns (a debug assertion firing on valid input is a "
+        "panic and therefore a violation).",
+        TRUST,
+        "TINY(3,4) x 2 value maps x all types, Huffman profiles up to 5 symbols, boundary lengths up to 4097 (thorough 24577), "
+        "TINYBIT(9), DArray group shapes up to 2 groups; profiles chk (debug assertions + overflow checks) and fast."),
+    "vacuity": need(["cases_with_3+_levels", "empty_cases"]),
+}
+
+PROPS["C11"] = {
+    "bin": "mc_diff",
+    "quick": [step("mc_diff", CHK)],
+    "thorough": [step("mc_diff", CHK), step("mc_diff", FAST)],
+    "evidence": exploration_evidence(
+        "bounded-exhaustive: every value of the shared zoo (all serializable types, empty values included) is serialized with "
+        "bincode and deserialized; deserialization must succeed, the result must compare equal to the original in both "
+        "directions, re-serialize to the identical bytes, and give the identical digest over the complete query sweep of its type.",
+        TRUST + ["bincode 1.3.3"],
+        "same zoo as C10; thorough adds longer inputs and the fast profile."),
+    "vacuity": need(["round_trips", "empty_cases"]),
+}
+
+PROPS["C19"] = {
+    "bin": "mc_diff",
+    "quick": [step("mc_diff", CHK)],
+    "thorough": [step("mc_diff", CHK), step("mc_diff", FAST)],
+    "evidence": exploration_evidence(
+        "differential, bounded-exhaustive: for every input of the zoo the structure is built by every construction path (trees: "
+        "new / From<Vec> / collect; RSQVector: new / From<QVector> / collect; RSNarrow, RSWide, DArray: new / From / collect from "
+        "bools / from positions; bit vectors: bools / positions / push) - all paths must give the identical digest over the "
+        "complete query sweep and (plain trees, non-Huffman structures) compare ==; clone == original; a one-symbol / one-bit / "
+        "one-length neighbour compares !=; ALL ordered pairs of the 121 sequences of TINY(3,4) compare != per tree type; the same "
+        "numbers carried in u8/u16/u32/u64/usize/u128 give the identical width-independent digest of every get/rank/select.",
+        TRUST,
+        "TINY(3,4..5), boundary lengths <= 4097, 121^2 pairs x 10 aliases x 3 element types, width comparison over TINY(3,5) + 3 long inputs."),
+    "vacuity": need(["pairs_compared", "empty_cases"]),
+}
